@@ -571,3 +571,420 @@ Section MGAProofs.
     split; [exact C1|]. rewrite V1, Vr. rewrite Z.mul_1_l. reflexivity.
   Qed.
 End MGAProofs.
+
+(* ------------------------------------------------------------------ rmint<K, MG_INACTIVE>: plain residues *)
+Section MGIProofs.
+  Variable k : nat.
+  Variable p : Z.
+  Hypothesis Hp : 1 < p < Bk k.
+  Local Notation B := (Bk k).
+  Local Notation can := (canon p).
+
+  Lemma mgi_ops_ok b c : can b -> can c ->
+    mgi_mul p b c = (b * c) mod p /\ mgi_add k p b c = (b + c) mod p /\ mgi_sub k p b c = (b - c) mod p /\
+    mgi_subin k p b c = (b - c) mod p /\ mgi_neg k p b = (- b) mod p.
+  Proof.
+    intros Hb Hc. split; [reflexivity|]. split; [apply (rm_add_raw k p Hp); assumption|].
+    split; [apply (rm_sub_raw k p Hp); assumption|]. split; [apply (rm_subin_raw k p Hp); assumption|].
+    apply (rm_neg_raw k p Hp); assumption.
+  Qed.
+  Lemma mgi_mul_ok b c : can b -> can c -> can (mgi_mul p b c) /\ mgi_mul p b c = (b * c) mod p.
+  Proof. intros _ _. split; [apply (mod_can k p Hp) | reflexivity]. Qed.
+  Lemma mgi_inv_ok b : can b -> Z.gcd b p = 1 -> can (mgi_inv k p b) /\ (mgi_inv k p b * b) mod p = 1.
+  Proof. intros Hb Hg. apply (inv_mod_spec B p b Hp Hb Hg). Qed.
+  Lemma mgi_div_ok b c : can b -> can c -> Z.gcd c p = 1 -> can (mgi_div k p b c) /\ (mgi_div k p b c * c) mod p = b.
+  Proof.
+    intros Hb Hc Hg. destruct (mgi_inv_ok c Hc Hg) as [Ci Ei]. unfold mgi_div. cbv zeta.
+    destruct (Z.eqb_spec (mgi_inv k p c) 0) as [E0|N0].
+    - exfalso. rewrite E0 in Ei. rewrite Z.mul_0_l, Z.mod_0_l in Ei by lia. discriminate.
+    - unfold mgi_mul. split; [apply (mod_can k p Hp)|]. rewrite Z.mul_mod_idemp_l by lia.
+      replace (b * mgi_inv k p c * c) with (b * (mgi_inv k p c * c)) by ring. rewrite <- Z.mul_mod_idemp_r by lia.
+      rewrite Ei, Z.mul_1_r. apply Z.mod_small. exact Hb.
+  Qed.
+  Lemma mgi_exp_ok n b e : can b -> 0 <= e < 2 ^ Z.of_nat n ->
+    can (mgi_exp p n b e) /\ mgi_exp p n b e = (b ^ e) mod p.
+  Proof.
+    intros Hb He. unfold mgi_exp. destruct (Z.eqb_spec p 1) as [E1|_]; [lia|].
+    destruct (pow_lsb_spec p (mgi_mul p) (fun z => z) can (fun a Ha => Ha) mgi_mul_ok n 1 b e ltac:(unfold canon; lia) Hb He) as [C1 V1].
+    split; [exact C1|]. rewrite V1. rewrite Z.mul_1_l. reflexivity.
+  Qed.
+  Lemma mgi_ctor_ok :
+    (forall c, can (mgi_of_ruint p c) /\ mgi_of_ruint p c = c mod p) /\
+    (forall b, can (mgi_of_signed k p b) /\ mgi_of_signed k p b = b mod p) /\
+    (forall c, can (mgi_of_rint k p c) /\ mgi_of_rint k p c = c mod p).
+  Proof.
+    split; [intros c; split; [apply (mod_can k p Hp) | reflexivity]|].
+    assert (Hs : forall b, can (if b <? 0 then rm_neg k p (Z.abs b mod p) else Z.abs b mod p) /\
+                           (if b <? 0 then rm_neg k p (Z.abs b mod p) else Z.abs b mod p) = b mod p).
+    { intros b. pose proof (mod_can k p Hp (Z.abs b)) as Hr. destruct (Z.ltb_spec b 0).
+      - rewrite (rm_neg_raw k p Hp _ Hr). split; [apply (mod_can k p Hp)|]. rewrite Z.abs_neq by lia.
+        change (eqm p (- ((- b) mod p)) b). rewrite (mod_eqm p (- b)). rewrite Z.opp_involutive. reflexivity.
+      - split; [exact Hr|]. rewrite Z.abs_eq by lia. reflexivity. }
+    split; intros b; apply Hs.
+  Qed.
+End MGIProofs.
+
+(* ------------------------------------------------------------------ Givaro::Montgomery<ruint<K>> *)
+Section MRProofs.
+  Variable k : nat.
+  Variable p : Z.
+  Hypothesis HM : RecMod k p.
+  Local Notation B := (Bk k).
+  Local Notation M := (mr_mk k p).
+  Local Notation p1 := (arazi_qi k ((- p) mod B)).
+  Local Notation fm := (from_mg B p p1).
+  Local Notation V := (mr_convert k M).
+  Local Notation can := (canon p).
+
+  Let Hp : 1 < p < B. Proof. apply HM. Qed.
+  Let Hp1 : (p * p1 + 1) mod B = 0. Proof. apply (p1_spec k p HM). Qed.
+  Let Hr : ((- p) mod B) mod p = B mod p. Proof. apply (r_spec k p Hp). Qed.
+
+  Lemma mr_fields : g_p M = p /\ g_p1 M = p1 /\ g_r M = B mod p /\ g_r2 M = (B * B) mod p /\ g_r3 M = (B * B * B) mod p /\
+    g_one M = B mod p.
+  Proof.
+    cbn [g_p g_p1 g_r g_r2 g_r3 g_one mr_mk]. rewrite !Hr. repeat split.
+    - change (eqm p (B mod p * (B mod p)) (B * B)). rewrite !mod_eqm. reflexivity.
+    - change (eqm p ((B mod p * (B mod p)) mod p * (B mod p)) (B * B * B)). rewrite !mod_eqm. reflexivity.
+  Qed.
+
+  Lemma mr_V_fm a : can a -> V a = fm a.
+  Proof. intros Ha. unfold mr_convert, mr_reduc. cbn [g_p g_p1 mr_mk]. apply (red_can_fm k p p1 Hp Hp1 a Ha). Qed.
+  Lemma mr_V_can a : can a -> can (V a).
+  Proof. intros Ha. rewrite (mr_V_fm a Ha). apply (fm_can k p p1 Hp). Qed.
+
+  Lemma mr_mul_ok a b : can a -> can b -> can (mr_mul k M a b) /\ V (mr_mul k M a b) = (V a * V b) mod p.
+  Proof.
+    intros Ha Hb. unfold mr_mul, mr_reduc. cbn [g_p g_p1 mr_mk].
+    rewrite (red_mul_fm k p p1 Hp Hp1 a b Ha Hb). split; [apply (fm_can k p p1 Hp)|].
+    rewrite (mr_V_fm (fm (a * b))) by apply (fm_can k p p1 Hp). rewrite (mr_V_fm a Ha), (mr_V_fm b Hb). apply fm_fm_mul.
+  Qed.
+  Lemma mr_add_ok a b : can a -> can b -> can (mr_add k M a b) /\ V (mr_add k M a b) = (V a + V b) mod p.
+  Proof.
+    intros Ha Hb. unfold mr_add. cbn [g_p mr_mk]. rewrite (rm_add_raw k p Hp a b Ha Hb).
+    split; [apply (mod_can k p Hp)|]. rewrite (mr_V_fm ((a + b) mod p)) by apply (mod_can k p Hp).
+    rewrite (mr_V_fm a Ha), (mr_V_fm b Hb). apply fm_add.
+  Qed.
+  Lemma mr_sub_ok a b : can a -> can b -> can (mr_sub k M a b) /\ V (mr_sub k M a b) = (V a - V b) mod p.
+  Proof.
+    intros Ha Hb. unfold mr_sub. cbn [g_p mr_mk]. rewrite (rm_sub_raw k p Hp a b Ha Hb).
+    split; [apply (mod_can k p Hp)|]. rewrite (mr_V_fm ((a - b) mod p)) by apply (mod_can k p Hp).
+    rewrite (mr_V_fm a Ha), (mr_V_fm b Hb). apply fm_sub.
+  Qed.
+  Lemma mr_subin_ok a b : can a -> can b -> can (mr_subin k M a b) /\ V (mr_subin k M a b) = (V a - V b) mod p.
+  Proof.
+    intros Ha Hb. unfold mr_subin. cbn [g_p mr_mk]. rewrite (rm_subin_raw k p Hp a b Ha Hb).
+    split; [apply (mod_can k p Hp)|]. rewrite (mr_V_fm ((a - b) mod p)) by apply (mod_can k p Hp).
+    rewrite (mr_V_fm a Ha), (mr_V_fm b Hb). apply fm_sub.
+  Qed.
+  Lemma mr_neg_ok a : can a -> can (mr_neg k M a) /\ V (mr_neg k M a) = (- V a) mod p.
+  Proof.
+    intros Ha. unfold mr_neg. cbn [g_p mr_mk]. rewrite (rm_neg_raw k p Hp a Ha).
+    split; [apply (mod_can k p Hp)|]. rewrite (mr_V_fm ((- a) mod p)) by apply (mod_can k p Hp).
+    rewrite (mr_V_fm a Ha). apply fm_opp.
+  Qed.
+
+  (* to_mg(a, b) = mul(a, b, _r2), for any word b (not only b < p) *)
+  Lemma mr_to_mg_ok x : 0 <= x < B -> can (mr_to_mg k M x) /\ V (mr_to_mg k M x) = x mod p.
+  Proof.
+    intros Hx. destruct mr_fields as (_ & _ & _ & E2 & _). unfold mr_to_mg, mr_mul, mr_reduc. rewrite E2. cbn [g_p g_p1 mr_mk].
+    pose proof (mod_can k p Hp (B * B)) as H2. unfold canon in H2.
+    rewrite (reduction_fm k p p1 Hp Hp1) by nia. split; [apply (fm_can k p p1 Hp)|].
+    rewrite mr_V_fm by apply (fm_can k p p1 Hp).
+    pose proof (BBi k p p1 Hp1) as HBB.
+    apply eqm_to_mod; [|apply (fm_can k p p1 Hp)]. rewrite !from_mg_eqm. rewrite (mod_eqm p (B * B)).
+    replace (x * (B * B) * Binv B p p1 * Binv B p p1) with (x * ((B * Binv B p p1) * (B * Binv B p p1))) by ring.
+    rewrite HBB. rewrite !Z.mul_1_r. reflexivity.
+  Qed.
+
+  (* init on [0,p) followed by convert is the identity; convert followed by init gives the element back *)
+  Lemma mr_init_ok x : can x -> can (mr_init k M x) /\ V (mr_init k M x) = x.
+  Proof.
+    intros Hx. unfold canon in Hx. unfold mr_init. cbv zeta. cbn [g_p mr_mk].
+    destruct (Z.ltb_spec x 0); [lia|]. rewrite Z.abs_eq by lia. rewrite (Z.mod_small x B) by lia. rewrite (Z.mod_small x p) by lia.
+    destruct (mr_to_mg_ok x ltac:(lia)) as [C1 V1]. split; [exact C1|]. rewrite V1. apply Z.mod_small. exact Hx.
+  Qed.
+  Lemma mr_convert_init a : can a -> mr_init k M (V a) = a.
+  Proof.
+    intros Ha. pose proof (mr_V_can a Ha) as Cv. destruct (mr_init_ok (V a) Cv) as [C1 V1].
+    apply (fm_inj k p p1 Hp1 _ _ C1 Ha). rewrite <- (mr_V_fm _ C1). rewrite V1. apply (mr_V_fm a Ha).
+  Qed.
+
+  Lemma mr_inv_ok a : can a -> Z.gcd a p = 1 -> can (mr_inv k M a) /\ (V (mr_inv k M a) * V a) mod p = 1.
+  Proof.
+    intros Ha Hg. destruct mr_fields as (_ & _ & _ & _ & E3 & _). unfold mr_inv. cbn [g_p mr_mk].
+    destruct (inv_mod_spec B p a Hp Ha Hg) as [Ci Ei]. set (i := inv_mod B a p) in *.
+    assert (C3 : can (g_r3 M)) by (rewrite E3; apply (mod_can k p Hp)).
+    destruct (mr_mul_ok i (g_r3 M) Ci C3) as [Cm Vm]. split; [exact Cm|].
+    rewrite Vm. rewrite (mr_V_fm i Ci), (mr_V_fm _ C3), (mr_V_fm a Ha). rewrite E3.
+    pose proof (BBi k p p1 Hp1) as HBB.
+    transitivity (1 mod p); [|apply Z.mod_1_l; lia].
+    change (eqm p ((fm i * fm ((B * B * B) mod p)) mod p * fm a) 1). rewrite (mod_eqm p (fm i * _)). rewrite !from_mg_eqm.
+    rewrite (mod_eqm p (B * B * B)).
+    replace (i * Binv B p p1 * (B * B * B * Binv B p p1) * (a * Binv B p p1))
+      with ((i * a) * B * ((B * Binv B p p1) * (B * Binv B p p1)) * Binv B p p1) by ring.
+    rewrite HBB. rewrite !Z.mul_1_r. replace (i * a * B * Binv B p p1) with (i * a * (B * Binv B p p1)) by ring.
+    rewrite HBB. rewrite Z.mul_1_r. unfold eqm. rewrite Ei. symmetry. apply Z.mod_1_l. lia.
+  Qed.
+  Lemma mr_div_ok a b : can a -> can b -> Z.gcd b p = 1 ->
+    (can (mr_div k M a b) /\ (V (mr_div k M a b) * V b) mod p = V a) /\
+    (can (mr_divin k M a b) /\ (V (mr_divin k M a b) * V b) mod p = V a).
+  Proof.
+    intros Ha Hb Hg. destruct (mr_inv_ok b Hb Hg) as [Ci Ei]. unfold mr_div, mr_divin.
+    destruct (mr_mul_ok (mr_inv k M b) a Ci Ha) as [C1 V1]. destruct (mr_mul_ok a (mr_inv k M b) Ha Ci) as [C2 V2].
+    pose proof (mr_V_can a Ha) as Cva. unfold canon in Cva.
+    split; (split; [assumption|]).
+    - rewrite V1. rewrite Z.mul_mod_idemp_l by lia. replace (V (mr_inv k M b) * V a * V b) with (V a * (V (mr_inv k M b) * V b)) by ring.
+      rewrite <- Z.mul_mod_idemp_r by lia. rewrite Ei, Z.mul_1_r. apply Z.mod_small. exact Cva.
+    - rewrite V2. rewrite Z.mul_mod_idemp_l by lia. replace (V a * V (mr_inv k M b) * V b) with (V a * (V (mr_inv k M b) * V b)) by ring.
+      rewrite <- Z.mul_mod_idemp_r by lia. rewrite Ei, Z.mul_1_r. apply Z.mod_small. exact Cva.
+  Qed.
+
+  Lemma mr_fused_ok a b c : can a -> can b -> can c ->
+    (can (mr_axpy k M a b c) /\ V (mr_axpy k M a b c) = (V a * V b + V c) mod p) /\
+    (can (mr_axpyin k M c a b) /\ V (mr_axpyin k M c a b) = (V c + V a * V b) mod p) /\
+    (can (mr_axmy k M a b c) /\ V (mr_axmy k M a b c) = (V a * V b - V c) mod p) /\
+    (can (mr_axmyin k M c a b) /\ V (mr_axmyin k M c a b) = (V a * V b - V c) mod p) /\
+    (can (mr_maxpy k M a b c) /\ V (mr_maxpy k M a b c) = (V c - V a * V b) mod p) /\
+    (can (mr_maxpyin k M c a b) /\ V (mr_maxpyin k M c a b) = (V c - V a * V b) mod p).
+  Proof.
+    intros Ha Hb Hc. destruct (mr_mul_ok a b Ha Hb) as [Cm Vm].
+    unfold mr_axpy, mr_axpyin, mr_axmy, mr_axmyin, mr_maxpy, mr_maxpyin.
+    destruct (mr_add_ok _ _ Cm Hc) as [C1 V1]. destruct (mr_add_ok _ _ Hc Cm) as [C2 V2].
+    destruct (mr_subin_ok _ _ Cm Hc) as [C3 V3]. destruct (mr_sub_ok _ _ Cm Hc) as [C4 V4].
+    destruct (mr_sub_ok _ _ Hc Cm) as [C5 V5]. destruct (mr_subin_ok _ _ Hc Cm) as [C6 V6].
+    split. { split; [exact C1|]. rewrite V1, Vm. apply Z.add_mod_idemp_l. lia. }
+    split. { split; [exact C2|]. rewrite V2, Vm. apply Z.add_mod_idemp_r. lia. }
+    split. { split; [exact C3|]. rewrite V3, Vm. apply Zminus_mod_idemp_l. }
+    split. { split; [exact C4|]. rewrite V4, Vm. apply Zminus_mod_idemp_l. }
+    split. { split; [exact C5|]. rewrite V5, Vm. apply Zminus_mod_idemp_r. }
+    split; [exact C6|]. rewrite V6, Vm. apply Zminus_mod_idemp_r.
+  Qed.
+
+  Lemma mr_constants_ok : can (g_one M) /\ V (g_one M) = 1 /\ can (g_mOne M) /\ V (g_mOne M) = p - 1 /\ g_mOne M = p - B mod p.
+  Proof.
+    destruct mr_fields as (_ & _ & _ & E2 & _ & E1). pose proof (Bp_nonzero k p HM) as Hnz.
+    pose proof (mod_can k p Hp B) as CB. assert (HB0 : 0 < B) by lia.
+    split; [rewrite E1; exact CB|]. split.
+    { rewrite E1. rewrite (mr_V_fm _ CB). rewrite (from_mg_B B p p1 HB0 Hp1). apply Z.mod_1_l. lia. }
+    (* mOne = to_mg(p - 1) *)
+    assert (Em : g_mOne M = mr_to_mg k M (p - 1)).
+    { cbn [g_mOne mr_mk]. unfold mr_to_mg, mr_mul, mr_reduc. cbn [g_p g_p1 g_r2 mr_mk]. rewrite (Z.mod_small (p - 1) B) by lia. reflexivity. }
+    destruct (mr_to_mg_ok (p - 1) ltac:(lia)) as [C1 V1]. rewrite <- Em in *.
+    rewrite (Z.mod_small (p - 1) p) in V1 by lia.
+    split; [exact C1|]. split; [exact V1|].
+    (* the stored value: the canonical element whose value is p - 1 *)
+    assert (C2 : can (p - B mod p)) by (unfold canon in *; lia).
+    apply (fm_inj k p p1 Hp1 _ _ C1 C2). rewrite <- (mr_V_fm _ C1). rewrite V1.
+    symmetry. apply (eqm_small p); [|apply (fm_can k p p1 Hp) | lia].
+    rewrite from_mg_eqm. replace ((p - B mod p) * Binv B p p1) with (p * Binv B p p1 - (B mod p) * Binv B p p1) by ring.
+    rewrite (eqm_mul_n_l p). rewrite (mod_eqm p B). rewrite (BBi k p p1 Hp1).
+    replace (p - 1) with (p * 1 + (0 - 1)) by ring. rewrite (eqm_mul_n_l p 1). reflexivity.
+  Qed.
+End MRProofs.
+
+(* ================================================================== the statements exported to Properties.v *)
+(* RecMod k p: p odd, 1 < p < B = Bk k = 2^(2^(k+6)).  canon p a: 0 <= a < p.  Elements are the stored values. *)
+
+Lemma Module_constants : Module_constants_stmt.
+Proof.
+  intros k p HM B M R. destruct (p1_spec k p HM) as [H1 H2]. destruct HM as [Ho Hp].
+  split.
+  - cbn [g_p g_p1 g_r mga_init_module]. repeat split; try assumption; try apply H1. apply (r_spec k p Hp).
+  - destruct (mr_fields k p (conj Ho Hp)) as (E0 & E1 & E2 & E3 & E4 & E5).
+    destruct (mr_constants_ok k p (conj Ho Hp)) as (_ & _ & _ & _ & Em).
+    split; [exact E0|]. split; [exact E1|]. split; [exact E2|]. split; [exact E3|]. split; [exact E4|]. split; [exact E5|].
+    split; [exact Em|]. apply (Bp_nonzero k p (conj Ho Hp)).
+Qed.
+
+Definition Arazi_qi_stmt : Prop := forall k a, 0 <= a < Bk k -> Z.odd a = true ->
+  0 <= arazi_qi k a < Bk k /\ (a * arazi_qi k a) mod Bk k = 1.
+
+Definition Inv_mod_stmt : Prop := forall k c b, 1 < c < Bk k -> 0 <= b < c -> Z.gcd b c = 1 ->
+  0 <= inv_mod (Bk k) b c < c /\ (inv_mod (Bk k) b c * b) mod c = 1.
+Lemma Inv_mod : Inv_mod_stmt.
+Proof. intros k c b Hc Hb Hg. apply (inv_mod_spec (Bk k) c b Hc Hb Hg). Qed.
+
+(* the Montgomery reduction of rmgreduc.h / montgomery-ruint.inl, for every input the code feeds it (a < p B, which
+   contains every ruint<K> and every product of two residues): the r in [0,p) with r * B = a (mod p) *)
+Definition Reduction_stmt : Prop := forall k p, RecMod k p ->
+  let p1 := g_p1 (mga_init_module k p) in
+  forall a, 0 <= a < p * Bk k ->
+  let r := reduction k p p1 a in 0 <= r < p /\ (r * Bk k) mod p = a mod p.
+Lemma Reduction : Reduction_stmt.
+Proof.
+  intros k p HM p1 a Ha r. subst r p1. cbn [g_p1 mga_init_module]. destruct (p1_spec k p HM) as [_ H2].
+  rewrite (reduction_fm k p _ (proj2 HM) H2 a Ha). split; [apply (fm_can k p _ (proj2 HM))|].
+  apply (from_mg_eqm_B (Bk k) p _ ltac:(pose proof (Bk_pos k); lia) H2).
+Qed.
+
+Definition MGA_ops_stmt : Prop := forall k p, RecMod k p ->
+  let M := mga_init_module k p in let V := mga_get_ruint k M in
+  forall a b c, canon p a -> canon p b -> canon p c ->
+  canon p (V a) /\
+  (canon p (mga_mul k M a b) /\ V (mga_mul k M a b) = (V a * V b) mod p) /\
+  (canon p (mga_square k M a) /\ V (mga_square k M a) = (V a * V a) mod p) /\
+  (canon p (mga_add k M a b) /\ V (mga_add k M a b) = (V a + V b) mod p) /\
+  (canon p (mga_sub k M a b) /\ V (mga_sub k M a b) = (V a - V b) mod p) /\
+  (canon p (mga_subin k M a b) /\ V (mga_subin k M a b) = (V a - V b) mod p) /\
+  (canon p (mga_neg k M a) /\ V (mga_neg k M a) = (- V a) mod p) /\
+  (canon p (mga_addmul k M c a b) /\ V (mga_addmul k M c a b) = (V c + V a * V b) mod p).
+Lemma MGA_ops : MGA_ops_stmt.
+Proof.
+  intros k p HM M V a b c Ha Hb Hc. subst M V.
+  split; [apply (V_can k p HM a Ha)|]. split; [apply (mga_mul_ok k p HM); assumption|].
+  split; [apply (mga_square_ok k p HM); assumption|]. split; [apply (mga_add_ok k p HM); assumption|].
+  split; [apply (mga_sub_ok k p HM); assumption|]. split; [apply (mga_subin_ok k p HM); assumption|].
+  split; [apply (mga_neg_ok k p HM); assumption|]. apply (mga_addmul_ok k p HM); assumption.
+Qed.
+
+Definition MGA_inv_div_exp_stmt : Prop := forall k p, RecMod k p ->
+  let M := mga_init_module k p in let V := mga_get_ruint k M in
+  forall a b e, canon p a -> canon p b ->
+  (Z.gcd b p = 1 -> canon p (mga_inv k M b) /\ (V (mga_inv k M b) * V b) mod p = 1) /\
+  (Z.gcd b p = 1 -> canon p (mga_div k M a b) /\ (V (mga_div k M a b) * V b) mod p = V a) /\
+  (0 <= e < 2 ^ 64 -> canon p (mga_exp_u k M a e) /\ V (mga_exp_u k M a e) = (V a ^ e) mod p).
+Lemma MGA_inv_div_exp : MGA_inv_div_exp_stmt.
+Proof.
+  intros k p HM M V a b e Ha Hb. subst M V.
+  split; [intros Hg; apply (mga_inv_ok k p HM b Hb Hg)|]. split; [intros Hg; apply (mga_div_ok k p HM a b Ha Hb Hg)|].
+  intros He. apply (mga_exp_u_ok k p HM a e Ha He).
+Qed.
+
+(* construction and conversion out: whatever the source, the element stands for the source value modulo p *)
+Definition MGA_ctor_stmt : Prop := forall k p, RecMod k p ->
+  let M := mga_init_module k p in let V := mga_get_ruint k M in
+  (forall c, canon p (mga_of_ruint k M c) /\ V (mga_of_ruint k M c) = c mod p) /\
+  (forall c, canon p (mga_of_unsigned k M c) /\ V (mga_of_unsigned k M c) = c mod p) /\
+  (forall c, canon p (mga_of_mgi k M c) /\ V (mga_of_mgi k M c) = c mod p) /\
+  (forall b, canon p (mga_of_signed k M b) /\ V (mga_of_signed k M b) = b mod p) /\
+  (forall c, canon p (mga_of_rint k M c) /\ V (mga_of_rint k M c) = c mod p).
+Lemma MGA_ctor : MGA_ctor_stmt.
+Proof. intros k p HM M V. subst M V. apply (mga_ctor_ok k p HM). Qed.
+
+Definition MGI_ops_stmt : Prop := forall k p, 1 < p < Bk k -> forall a b e n, canon p a -> canon p b ->
+  (mgi_mul p a b = (a * b) mod p /\ mgi_add k p a b = (a + b) mod p /\ mgi_sub k p a b = (a - b) mod p /\
+   mgi_subin k p a b = (a - b) mod p /\ mgi_neg k p a = (- a) mod p) /\
+  (Z.gcd b p = 1 -> canon p (mgi_inv k p b) /\ (mgi_inv k p b * b) mod p = 1) /\
+  (Z.gcd b p = 1 -> canon p (mgi_div k p a b) /\ (mgi_div k p a b * b) mod p = a) /\
+  (0 <= e < 2 ^ Z.of_nat n -> canon p (mgi_exp p n a e) /\ mgi_exp p n a e = (a ^ e) mod p) /\
+  (forall c, mgi_of_ruint p c = c mod p) /\ (forall c, mgi_of_signed k p c = c mod p) /\ (forall c, mgi_of_rint k p c = c mod p).
+Lemma MGI_ops : MGI_ops_stmt.
+Proof.
+  intros k p Hp a b e n Ha Hb.
+  split; [apply (mgi_ops_ok k p Hp a b Ha Hb)|]. split; [intros Hg; apply (mgi_inv_ok k p Hp b Hb Hg)|].
+  split; [intros Hg; apply (mgi_div_ok k p Hp a b Ha Hb Hg)|]. split; [intros He; apply (mgi_exp_ok k p Hp n a e Ha He)|].
+  destruct (mgi_ctor_ok k p Hp) as (H1 & H2 & H3). split; [intros c; apply H1|]. split; [intros c; apply H2 | intros c; apply H3].
+Qed.
+
+(* the two variants agree: same inputs in, same residues out *)
+Definition MGA_MGI_agree_stmt : Prop := forall k p, RecMod k p ->
+  let M := mga_init_module k p in let V := mga_get_ruint k M in
+  let inA := mga_of_ruint k M in let inI := mgi_of_ruint p in
+  forall x y e, 0 <= e < 2 ^ 64 ->
+  V (inA x) = inI x /\
+  V (mga_mul k M (inA x) (inA y)) = mgi_mul p (inI x) (inI y) /\
+  V (mga_add k M (inA x) (inA y)) = mgi_add k p (inI x) (inI y) /\
+  V (mga_sub k M (inA x) (inA y)) = mgi_sub k p (inI x) (inI y) /\
+  V (mga_neg k M (inA x)) = mgi_neg k p (inI x) /\
+  V (mga_exp_u k M (inA x) e) = mgi_exp p 64 (inI x) e /\
+  (Z.gcd x p = 1 -> V (mga_inv k M (inA x)) = mgi_inv k p (inI x)).
+
+Lemma gcd_to_mg B p p1 x : 1 < p -> eqm p (B * Binv B p p1) 1 -> Z.gcd x p = 1 -> Z.gcd ((x * B) mod p) p = 1.
+Proof.
+  intros Hp H Hg. rewrite Z.gcd_mod by lia. apply Zgcd_1_rel_prime. apply rel_prime_mult.
+  - apply rel_prime_sym. apply Zgcd_1_rel_prime. exact Hg.
+  - apply bezout_rel_prime. unfold eqm in H. rewrite Z.mod_1_l in H by lia.
+    pose proof (Z.div_mod (B * Binv B p p1) p ltac:(lia)) as D. rewrite H in D.
+    apply (Bezout_intro _ _ _ (- ((B * Binv B p p1) / p)) (Binv B p p1)). rewrite (Z.mul_comm (Binv B p p1) B). rewrite D at 2. ring.
+Qed.
+
+Lemma inverse_unique p c i j : 1 < p -> 0 <= i < p -> 0 <= j < p -> (i * c) mod p = 1 -> (j * c) mod p = 1 -> i = j.
+Proof.
+  intros Hp Hi Hj Ei Ej. apply (eqm_small p); [|exact Hi|exact Hj].
+  assert (Ei' : eqm p (i * c) 1) by (unfold eqm; rewrite Ei; symmetry; apply Z.mod_1_l; lia).
+  assert (Ej' : eqm p (j * c) 1) by (unfold eqm; rewrite Ej; symmetry; apply Z.mod_1_l; lia).
+  transitivity (i * (j * c)); [rewrite Ej'; rewrite Z.mul_1_r; reflexivity|].
+  replace (i * (j * c)) with (j * (i * c)) by ring. rewrite Ei'. rewrite Z.mul_1_r. reflexivity.
+Qed.
+
+Lemma MGA_MGI_agree : MGA_MGI_agree_stmt.
+Proof.
+  intros k p HM M V inA inI x y e He. subst M V inA inI.
+  pose proof (proj2 HM) as Hp. destruct (p1_spec k p HM) as [_ Hp1].
+  destruct (mga_to_mg_ok k p HM x) as [Cx Vx]. destruct (mga_to_mg_ok k p HM y) as [Cy Vy].
+  pose proof (mod_can k p Hp x) as Mx. pose proof (mod_can k p Hp y) as My.
+  unfold mga_of_ruint, mgi_of_ruint.
+  destruct (mgi_ops_ok k p Hp (x mod p) (y mod p) Mx My) as (_ & Ea & Es & _ & En).
+  split; [exact Vx|].
+  split; [rewrite (proj2 (mga_mul_ok k p HM _ _ Cx Cy)), Vx, Vy; reflexivity|].
+  split; [rewrite (proj2 (mga_add_ok k p HM _ _ Cx Cy)), Vx, Vy, Ea; reflexivity|].
+  split; [rewrite (proj2 (mga_sub_ok k p HM _ _ Cx Cy)), Vx, Vy, Es; reflexivity|].
+  split; [rewrite (proj2 (mga_neg_ok k p HM _ Cx)), Vx, En; reflexivity|].
+  split.
+  - rewrite (proj2 (mga_exp_u_ok k p HM _ e Cx He)), Vx.
+    rewrite (proj2 (mgi_exp_ok k p Hp 64 (x mod p) e Mx He)). reflexivity.
+  - intros Hg.
+    assert (Gr : Z.gcd (mga_to_mg k (mga_init_module k p) x) p = 1).
+    { unfold mga_to_mg. cbn [g_p mga_init_module]. apply (gcd_to_mg (Bk k) p _ x ltac:(lia) (BBi k p _ Hp1) Hg). }
+    assert (Gm : Z.gcd (x mod p) p = 1) by (rewrite Z.gcd_mod by lia; rewrite Z.gcd_comm; exact Hg).
+    destruct (mga_inv_ok k p HM _ Cx Gr) as [Ci Ei]. rewrite Vx in Ei.
+    destruct (mgi_inv_ok k p Hp (x mod p) Mx Gm) as [Cj Ej].
+    apply (inverse_unique p (x mod p)); [lia | apply (V_can k p HM _ Ci) | exact Cj | exact Ei | exact Ej].
+Qed.
+
+(* Givaro::Montgomery<ruint<K>> *)
+Definition MR_ops_stmt : Prop := forall k p, RecMod k p ->
+  let M := mr_mk k p in let V := mr_convert k M in
+  forall a b c, canon p a -> canon p b -> canon p c ->
+  canon p (V a) /\
+  (canon p (mr_mul k M a b) /\ V (mr_mul k M a b) = (V a * V b) mod p) /\
+  (canon p (mr_add k M a b) /\ V (mr_add k M a b) = (V a + V b) mod p) /\
+  (canon p (mr_sub k M a b) /\ V (mr_sub k M a b) = (V a - V b) mod p) /\
+  (canon p (mr_subin k M a b) /\ V (mr_subin k M a b) = (V a - V b) mod p) /\
+  (canon p (mr_neg k M a) /\ V (mr_neg k M a) = (- V a) mod p) /\
+  ((canon p (mr_axpy k M a b c) /\ V (mr_axpy k M a b c) = (V a * V b + V c) mod p) /\
+   (canon p (mr_axpyin k M c a b) /\ V (mr_axpyin k M c a b) = (V c + V a * V b) mod p) /\
+   (canon p (mr_axmy k M a b c) /\ V (mr_axmy k M a b c) = (V a * V b - V c) mod p) /\
+   (canon p (mr_axmyin k M c a b) /\ V (mr_axmyin k M c a b) = (V a * V b - V c) mod p) /\
+   (canon p (mr_maxpy k M a b c) /\ V (mr_maxpy k M a b c) = (V c - V a * V b) mod p) /\
+   (canon p (mr_maxpyin k M c a b) /\ V (mr_maxpyin k M c a b) = (V c - V a * V b) mod p)).
+Lemma MR_ops : MR_ops_stmt.
+Proof.
+  intros k p HM M V a b c Ha Hb Hc. subst M V.
+  split; [apply (mr_V_can k p HM a Ha)|]. split; [apply (mr_mul_ok k p HM); assumption|].
+  split; [apply (mr_add_ok k p HM); assumption|]. split; [apply (mr_sub_ok k p HM); assumption|].
+  split; [apply (mr_subin_ok k p HM); assumption|]. split; [apply (mr_neg_ok k p HM); assumption|].
+  apply (mr_fused_ok k p HM); assumption.
+Qed.
+
+Definition MR_inv_div_init_stmt : Prop := forall k p, RecMod k p ->
+  let M := mr_mk k p in let V := mr_convert k M in
+  (forall a b, canon p a -> canon p b -> Z.gcd b p = 1 ->
+     (canon p (mr_inv k M b) /\ (V (mr_inv k M b) * V b) mod p = 1) /\
+     (canon p (mr_div k M a b) /\ (V (mr_div k M a b) * V b) mod p = V a) /\
+     (canon p (mr_divin k M a b) /\ (V (mr_divin k M a b) * V b) mod p = V a) /\
+     mr_isUnit M b = true) /\
+  (forall x, canon p x -> canon p (mr_init k M x) /\ V (mr_init k M x) = x) /\
+  (forall a, canon p a -> mr_init k M (V a) = a) /\
+  (forall x, 0 <= x < Bk k -> canon p (mr_to_mg k M x) /\ V (mr_to_mg k M x) = x mod p) /\
+  (canon p (g_one M) /\ V (g_one M) = 1 /\ canon p (g_mOne M) /\ V (g_mOne M) = p - 1 /\ V 0 = 0).
+Lemma MR_inv_div_init : MR_inv_div_init_stmt.
+Proof.
+  intros k p HM M V. subst M V. split.
+  - intros a b Ha Hb Hg. split; [apply (mr_inv_ok k p HM b Hb Hg)|].
+    destruct (mr_div_ok k p HM a b Ha Hb Hg) as [H1 H2]. split; [exact H1|]. split; [exact H2|].
+    unfold mr_isUnit. cbn [g_p mr_mk]. rewrite Hg. reflexivity.
+  - split; [intros x Hx; apply (mr_init_ok k p HM x Hx)|]. split; [intros a Ha; apply (mr_convert_init k p HM a Ha)|].
+    split; [intros x Hx; apply (mr_to_mg_ok k p HM x Hx)|].
+    destruct (mr_constants_ok k p HM) as (C1 & V1 & Cm & Vm & _). split; [exact C1|]. split; [exact V1|]. split; [exact Cm|].
+    split; [exact Vm|]. rewrite (mr_V_fm k p HM 0) by (destruct HM as [_ Hp]; unfold canon; lia). apply from_mg_0.
+Qed.
+
+(* FULL statement for the windowed exponentiation exp(rmint<K,MGA>&, const rmint<K,MGA>&, const ruint<K>&) of rmgexp.h.
+   NOT proved (the proved part of exponentiation is the UDItype form, in MGA_inv_div_exp_stmt, and the MGI bit loop for every
+   length, in MGI_ops_stmt); mga_exp_ru is tied and checked by the correspondence / oracle run only. *)
+Definition MGA_exp_ruint_stmt : Prop := forall k p, RecMod k p ->
+  let M := mga_init_module k p in let V := mga_get_ruint k M in
+  forall b c, canon p b -> 0 <= c < Bk k ->
+  canon p (mga_exp_ru k M b c) /\ V (mga_exp_ru k M b c) = (V b ^ c) mod p.
